@@ -180,8 +180,8 @@ PROPS['C13'] = dict(
          'of the operation is judged by the Lean event model (stepOK). non-trivial = some operation logged a shrink or addsym '
          'event; distinct = by hash of the case line',
     trusted_base=EG_TRUST + ['event hooks (alloc/merge/shrink/addsym call sites, commit 01d0fa8) are assumed to sit at every place that changes the measure; a missing site shows up as a stepOK failure'],
-    assumptions=COMMON_ASSUME + ['extraction from old handles is exercised under C06 (open finding F2 makes the extractor unusable on classes with redundant-slot nodes)',
-                                 'rewrite iterations in long histories: covered by the C15/C03 runs'],
+    assumptions=COMMON_ASSUME + ['every 9 operations and at the end: Extractor::extract (AstSize) from every handle ever returned; the result must be represented and eq to the handle',
+                                 'a rewrite iteration (2-3 pool rules chosen by position) every 11 operations, judged by the same event model'],
 )
 
 SNAP_RULE = ('corr.snapshot.queries: after a generated history (C01 generator) the private state is dumped through the hook and the '
